@@ -424,21 +424,25 @@ def task_fixed(ctx):
 
 def tasks(tier):
     if tier == "quick":
-        return [("tree-a", task_tree, dict(n=700, depth=2)),
-                ("tree-b", task_tree, dict(n=700, depth=3)),
-                ("tree-c", task_tree, dict(n=700, depth=1)),
-                ("ops-a", task_ops, dict(n=350)),
-                ("ops-b", task_ops, dict(n=350)),
-                ("mixture-a", task_mixture, dict(n=600)),
-                ("mixture-b", task_mixture, dict(n=600)),
+        return [("tree-a", task_tree, dict(n=500, depth=2)),
+                ("tree-b", task_tree, dict(n=500, depth=3)),
+                ("tree-c", task_tree, dict(n=500, depth=1)),
+                ("tree-d", task_tree, dict(n=500, depth=2)),
+                ("ops-a", task_ops, dict(n=250)),
+                ("ops-b", task_ops, dict(n=250)),
+                ("ops-c", task_ops, dict(n=250, steps=20)),
+                ("mixture-a", task_mixture, dict(n=300)),
+                ("mixture-b", task_mixture, dict(n=300)),
+                ("mixture-c", task_mixture, dict(n=300)),
+                ("mixture-d", task_mixture, dict(n=300)),
                 ("fixed", task_fixed, dict())]
     out = [("fixed", task_fixed, dict())]
-    for k in range(7):
-        out.append(("tree-%d" % k, task_tree, dict(n=25000, depth=1 + k % 4)))
+    for k in range(6):
+        out.append(("tree-%d" % k, task_tree, dict(n=15000, depth=1 + k % 4)))
     for k in range(5):
-        out.append(("ops-%d" % k, task_ops, dict(n=6000, steps=10 + 4 * k)))
+        out.append(("ops-%d" % k, task_ops, dict(n=4000, steps=10 + 4 * k)))
     for k in range(4):
-        out.append(("mixture-%d" % k, task_mixture, dict(n=20000)))
+        out.append(("mixture-%d" % k, task_mixture, dict(n=8000)))
     return out
 
 
